@@ -103,7 +103,14 @@ class PUnit:
                 continue
             for vc in getattr(rep, "vacuous_calls", []):
                 res.errors.append(f"vacuity guard: in {c.target}: {vc}")
-            solver.discharge(rep, timeout_ms=ctx.timeout_ms)
+            ck = ledger.entry_key(ctx.pid, ckey(c))
+            centry = ledger.cores().get(ck)
+            usable = centry is not None and centry.get("sha256") == rep.sha and centry.get("module_sha256") == modsha
+            fresh = {} if updating else None
+            solver.discharge(rep, timeout_ms=ctx.timeout_ms, cores=centry["cores"] if usable else None, record=fresh)
+            if updating:
+                ledger.cores()[ck] = {"sha256": rep.sha, "module_sha256": modsha, "cores": fresh}
+            fn["proof_cores_replayed"] = sum(1 for ob in rep.obligations if "recorded proof core" in (ob.backend or ""))
             res.trusted |= set(rep.trusted_used)
             for ax_name, _ax in getattr(c, "axioms", []):
                 res.trusted.add(f"axiom assumed in the proof of {c.qual}: {ax_name}")
